@@ -380,7 +380,7 @@ impl Property for C14 {
         vec![("one-op-at-a-time", 1)]
     }
     fn budget(&self) -> (u64, u64) {
-        (3_000, 100_000)
+        (10_000, 300_000)
     }
     fn rule(&self) -> &'static str {
         "stable clusters of 2-3 real nodes; 1-5 client-visible commands of {set,set-safe,remove,increment,get,keys,watch,create-db,create-user,set-permissions,snapshot,cluster-state,metrics-state, conflicting write on an arbiter database + the arbiter's resolve (arbiter on any node)} issued one at a time on a seeded node; every line crossing a simulated inter-node link is recorded and attributed: forwards to the primary <= 1 per client operation, copies of one replicated message <= number of secondaries, acks <= copies, distinct replicated messages <= 3 per client operation, nothing from secondary to secondary, quiescence within 8 simulated s and no line during a further 2 x election timeout. Non-trivial: the command produced at least one inter-node line. distinct = distinct (program, task-switch sequence)."
